@@ -451,8 +451,17 @@ type FuncSpec struct {
 	MayPanic bool
 	Partial  bool // the contract makes no frame claim: no frame obligations, callers havoc the may-write set
 	LockHeld bool // called with the guarding mutex held (lock discipline)
+	Ghosts   []*GhostCount
 	Props    []string
 	File     string
+}
+
+// GhostCount: cnt(j) = number of indices i < j for which Body(i) holds (Body evaluated in the entry state)
+type GhostCount struct {
+	Name string
+	Var  string
+	Body *Node
+	Src  string
 }
 
 type PredSpec struct {
@@ -507,6 +516,7 @@ var guardedRe = regexp.MustCompile(`^guarded\s+([A-Za-z_][A-Za-z0-9_]*)\.([A-Za-
 var clauseHead = regexp.MustCompile(`^(requires|ensures|modifies|invariant|decreases|aborts)(\[[A-Za-z0-9_,. ]+\])?\s+(.*)$`)
 var funcHead = regexp.MustCompile(`^func\s+(\S+)\s*$`)
 var predHead = regexp.MustCompile(`^pred\s+([A-Za-z_][A-Za-z0-9_]*)\s*\(([^)]*)\)\s*:=\s*(.*)$`)
+var ghostHead = regexp.MustCompile(`^ghostcount\s+([A-Za-z_][A-Za-z0-9_]*)\s*\(\s*([A-Za-z_][A-Za-z0-9_]*)\s*\)\s*:=\s*(.*)$`)
 var loopHead = regexp.MustCompile(`^loop\s+([0-9]+)\s*:?\s*$`)
 var lemmaHead = regexp.MustCompile(`^lemma(\[[A-Za-z0-9_,. ]+\])?\s+([A-Za-z_][A-Za-z0-9_]*)\s*:\s*(.*)$`)
 
@@ -562,7 +572,7 @@ func (db *SpecDB) loadContractFile(path, pkgPath string) error {
 	var items []string
 	isHead := func(t string) bool {
 		return clauseHead.MatchString(t) || strings.HasPrefix(t, "func ") || strings.HasPrefix(t, "pred ") || loopHead.MatchString(t) ||
-			strings.HasPrefix(t, "lemma") || t == "pure" || t == "inline" || t == "assumed" || t == "nopanic" || t == "maypanic" || t == "lockheld" || t == "partial" || strings.HasPrefix(t, "props ") || strings.HasPrefix(t, "smt ") || strings.HasPrefix(t, "global ") || strings.HasPrefix(t, "guarded ")
+			strings.HasPrefix(t, "lemma") || t == "pure" || t == "inline" || t == "assumed" || t == "nopanic" || t == "maypanic" || t == "lockheld" || t == "partial" || strings.HasPrefix(t, "props ") || strings.HasPrefix(t, "smt ") || strings.HasPrefix(t, "global ") || strings.HasPrefix(t, "guarded ") || strings.HasPrefix(t, "ghostcount ")
 	}
 	for _, l := range lines {
 		t := strings.TrimSpace(l)
@@ -634,6 +644,16 @@ func (db *SpecDB) loadContractFile(path, pkgPath string) error {
 			}
 			db.lemmas = append(db.lemmas, &LemmaSpec{Pkg: pkgPath, Name: m[2], Tags: parseTags(m[1]), Expr: body, Src: m[3]})
 			cur = nil
+		case ghostHead.MatchString(it):
+			if cur == nil {
+				return fmt.Errorf("%s: ghostcount outside func", path)
+			}
+			m := ghostHead.FindStringSubmatch(it)
+			body, err := parseSpecExpr(m[3])
+			if err != nil {
+				return fmt.Errorf("%s: ghostcount %s: %v", path, m[1], err)
+			}
+			cur.Ghosts = append(cur.Ghosts, &GhostCount{Name: m[1], Var: m[2], Body: body, Src: m[3]})
 		case loopHead.MatchString(it):
 			if cur == nil {
 				return fmt.Errorf("%s: loop outside func", path)
